@@ -1,6 +1,7 @@
 import Rangers.Basic.Hex
 import Rangers.Basic.Line
 import Rangers.Model.Evm10Interp
+import Rangers.Model.Evm10Call
 import Rangers.Model.Evm10Keccak
 import Rangers.Generated.Evm10JumpTable
 /-
@@ -8,6 +9,8 @@ C10 driver.  Ops:
   run <cfg 0..7> <gas> <code hex> <input hex>   → ok <gasLeft> <ret> | revert <gasLeft> <ret> | err <kind> | unmodelled
   bitmap <code hex>                              → hex of codeBitmap(code)
   valid <code hex> <dest word hex>               → true|false   (validJumpdest)
+  idcall <mem hex> <inOff> <inSize> <retOff> <retSize> → ok <memory after> <return data>   (STATICCALL to precompile 0x04)
+  memsize <cfg> <opcode> <stack words, top first> → <size> <overflow> | undefined   (operation.memorySize)
 -/
 namespace Rangers.Drive.C10
 open Rangers Rangers.Model.Evm10
@@ -32,6 +35,34 @@ def step (_ : Unit) (line : String) : Unit × String :=
         let p := Rangers.Generated.Evm10.gasParams (cfg / 4 % 2 == 1)
         ((), showOutcome (call Keccak.keccak256 t p (gas + 2) code input gas))
     | _, _, _, _ => ((), "bad-op")
+  | "memsize" :: cfg :: op :: ws =>
+    match parseNat? cfg, parseNat? op, ws.mapM ofHex? with
+    | some cfg, some op, some ws =>
+      if cfg ≥ 8 ∨ op ≥ 256 ∨ ws.any (fun w => w.length > 32) then ((), "bad-op")
+      else
+        match (Rangers.Generated.Evm10.table cfg).get op with
+        | none => ((), "undefined")
+        | some info =>
+          match memorySizeOf info.memSize (ws.map U256.setBytes) with
+          | .noFn => ((), "undefined")
+          | .size sz ov => ((), s!"{sz} {ov}")
+          | .panic => ((), "PANIC")
+          | .unmodelled _ => ((), "unmodelled")
+    | _, _, _ => ((), "bad-op")
+  | ["idcall", mem, io, isz, ro, rs] =>
+    match ofHex? mem, parseNat? io, parseNat? isz, parseNat? ro, parseNat? rs with
+    | some mem, some io, some isz, some ro, some rs =>
+      if io ≥ 2 ^ 32 ∨ isz ≥ 2 ^ 32 ∨ ro ≥ 2 ^ 32 ∨ rs ≥ 2 ^ 32 then ((), "bad-op")
+      else
+        -- CALLDATACOPY(0, 0, len) first: memory = the bytes, zero-extended to whole words
+        let m0 := if mem.length = 0 then [] else Mem.resize mem (toWordSize mem.length * 32)
+        match staticCallMemory m0 (U256.ofNat io) (U256.ofNat isz) (U256.ofNat ro) (U256.ofNat rs) with
+        | none => ((), "unmodelled")
+        | some m =>
+          match identityCall m io isz ro rs with
+          | some (m', rd) => ((), s!"ok {toHex m'} {toHex rd}")
+          | none => ((), "PANIC")
+    | _, _, _, _, _ => ((), "bad-op")
   | ["bitmap", code] =>
     match ofHex? code with
     | some code => ((), toHex (Bitvec.codeBitmap code))
